@@ -196,7 +196,7 @@ fn rule(id: &str) -> &'static str {
         "C07" => "after every op of a generated history every acknowledged version of every client is re-read through GetChildVersion(parent). Non-trivial: a re-read after a later op; distinct by (version position, chain length bucket, class of the later op, snapshot present).",
         "C08" => "every AddVersion(p) of generated histories is preceded by GetChildVersion(p) on the same state and the pair is checked against the found / not-found<=>accept / gone<=>reject relation and the model; plus the complete small-scope table (chain 0..6 x base kind x snapshot position x p class). Non-trivial: probe on a non-empty chain with p not the latest; distinct by (state class, p class).",
         "C10" => "complete small-scope enumeration (chain 0..9 x nil/non-nil base x every reachable snapshot position incl. base corner x every v class incl. each position, nil, base, fresh, foreign; both backends) plus AddSnapshot ops in long random histories; after each AddSnapshot storage must show a clean replacement exactly when the window rule holds, else be untouched (full dump). Non-trivial: v is 5th/6th most recent, or a snapshot exists and v differs from it, or v is foreign/base; distinct by (n, base kind, snapshot position, v class, v position).",
-        "C11" => "histories dense in AddVersion/AddSnapshot; GetSnapshot after every op must equal the most recently accepted upload (id and bytes from the same upload); after accepted snapshots and at the end the chain is walked from the snapshot version to the latest. Non-trivial: a walk of >=1 step after >=2 accepted snapshots or after a declined AddSnapshot; distinct by (chain length, walk length, accepted count, base kind).",
+        "C11" => "(a) all scheduler-owned interleavings (gate before every storage call) of AddSnapshot overlapping GetSnapshot and AddVersion on memory / one SQLite object / one SQLite object per request, via HTTP handlers and library: every GetSnapshot answer is the id and bytes of one upload, never an error, and the snapshot left behind is a usable base; (b) histories dense in AddVersion/AddSnapshot; GetSnapshot after every op must equal the most recently accepted upload (id and bytes from the same upload); after accepted snapshots and at the end the chain is walked from the snapshot version to the latest. Non-trivial: a walk of >=1 step after >=2 accepted snapshots or after a declined AddSnapshot; distinct by (chain length, walk length, accepted count, base kind).",
         "C18" => "full state dump (raw SQL for SQLite, storage API over all known ids for memory) before and after every GetChildVersion, GetSnapshot, conflicting AddVersion and declined AddSnapshot of generated histories. Non-trivial: the op's client holds a snapshot or >=2 clients hold data; distinct by (op/outcome, state class, holders, chain length bucket).",
         _ => "",
     }
@@ -235,6 +235,14 @@ pub fn run(id: &str, tier: Tier, seed: u64) -> Report {
         }
     }
 
+    if id == "C11" {
+        // the "overlapping" half of the quantifier, under the controlled scheduler
+        crate::props::conc::c11_overlap_subrun(&mut rep, tier);
+        if rep.failed() {
+            return rep;
+        }
+    }
+
     let p = params(id, tier);
     let total: u64 = match id {
         "C07" => tier.pick(2500, 60_000),
@@ -252,6 +260,7 @@ pub fn replay(id: &str, kind: &str, case: &Value, st: &mut Stats) -> CheckResult
             let hc: HCase = serde_json::from_value(case.clone()).map_err(|e| Fail::Inconclusive(format!("bad replay file: {e}")))?;
             check(id, &hc, st)
         }
+        "overlap" if id == "C11" => crate::props::conc::c11_replay(case, st),
         _ => Err(Fail::Inconclusive(format!("unknown replay kind {kind}"))),
     }
 }
